@@ -17,7 +17,8 @@
 (* Lines are abstract: [k |-> "noise" | "look" (noise that reads as three    *)
 (* integers) | "hdr" | "name", id, full (line end arrived), parses (a cut    *)
 (* header may or may not still read as three integers)].                     *)
-(* Deviations: "NoStderrThread" (stderr read after stdout by the same        *)
+(* Deviations: "NoFreshLine" (before the process.py fix: the report does not  *)
+(* start on a fresh line), "NoStderrThread" (stderr read after stdout by the same *)
 (* thread), "TrustTruncated" (before fix 47c652d: missing names ignored),    *)
 (* "SpawnFailureUnrecorded" (before fix 26b5a08); the environment constant   *)
 (* Lookalike lets the child emit a header look-alike on fd 2 (known finding).*)
@@ -31,13 +32,14 @@ CONSTANTS NNames,      \* names the child announces (nfail + nerr)
           Deviations
 
 VARIABLES cpc, alive, outPipe, errPipe, outClosed, errClosed, wrote,
-          mpc, tpc, errBuf, result, spawnOK, ghostComplete, noiseFirst
+          mpc, tpc, errBuf, result, spawnOK, ghostComplete, noiseFirst,
+          pending      \* the last thing written to fd 2 did not end its line
 vars == <<cpc, alive, outPipe, errPipe, outClosed, errClosed, wrote,
-          mpc, tpc, errBuf, result, spawnOK, ghostComplete, noiseFirst>>
+          mpc, tpc, errBuf, result, spawnOK, ghostComplete, noiseFirst, pending>>
 
 Report == <<[k |-> "hdr", id |-> 0]>> \o [i \in 1..NNames |-> [k |-> "name", id |-> i]]
 
-Init == /\ cpc = "spawn" /\ alive = FALSE /\ spawnOK \in BOOLEAN /\ noiseFirst \in BOOLEAN
+Init == /\ cpc = "spawn" /\ alive = FALSE /\ spawnOK \in BOOLEAN /\ noiseFirst \in BOOLEAN /\ pending = FALSE
         /\ outPipe = <<>> /\ errPipe = <<>> /\ outClosed = FALSE /\ errClosed = FALSE
         /\ wrote = [out |-> 0, noise |-> 0, rep |-> 0]
         /\ mpc = "popen" /\ tpc = "idle" /\ errBuf = <<>>
@@ -51,7 +53,7 @@ Popen == /\ mpc = "popen"
             ELSE /\ mpc' = "done" /\ UNCHANGED <<alive, cpc, tpc>>
                  /\ result' = IF "SpawnFailureUnrecorded" \in Deviations THEN result
                               ELSE [kind |-> "spawnerror", names |-> <<>>]
-         /\ UNCHANGED <<outPipe, errPipe, outClosed, errClosed, wrote, errBuf, spawnOK, ghostComplete, noiseFirst>>
+         /\ UNCHANGED <<outPipe, errPipe, outClosed, errClosed, wrote, errBuf, spawnOK, ghostComplete, noiseFirst, pending>>
 
 (* ---- child -------------------------------------------------------------- *)
 (* the child's program order: all its fd-2 noise before its stdout lines, or  *)
@@ -59,10 +61,11 @@ Popen == /\ mpc = "popen"
 ChildOut == /\ alive /\ cpc = "run" /\ wrote.out < NOut /\ Len(outPipe) < Cap
             /\ (noiseFirst => wrote.noise = NNoise)
             /\ outPipe' = Append(outPipe, "line") /\ wrote' = [wrote EXCEPT !.out = @ + 1]
-            /\ UNCHANGED <<cpc, alive, errPipe, outClosed, errClosed, mpc, tpc, errBuf, result, spawnOK, ghostComplete, noiseFirst>>
+            /\ UNCHANGED <<cpc, alive, errPipe, outClosed, errClosed, mpc, tpc, errBuf, result, spawnOK, ghostComplete, noiseFirst, pending>>
 
-ChildNoise(look) ==
+ChildNoise(look, term) ==
   /\ alive /\ cpc = "run" /\ wrote.noise < NNoise /\ Len(errPipe) < Cap
+  /\ pending' = ~term
   /\ (~noiseFirst => wrote.out = NOut)
   /\ (look => Lookalike)
   /\ errPipe' = Append(errPipe, [k |-> IF look THEN "look" ELSE "noise", id |-> 0, full |-> TRUE, parses |-> look])
@@ -71,19 +74,24 @@ ChildNoise(look) ==
 
 ChildCloseStdout == /\ alive /\ cpc = "run" /\ wrote.out = NOut /\ wrote.noise = NNoise
                     /\ cpc' = "report" /\ outClosed' = TRUE
-                    /\ UNCHANGED <<alive, outPipe, errPipe, errClosed, wrote, mpc, tpc, errBuf, result, spawnOK, ghostComplete, noiseFirst>>
+                    /\ UNCHANGED <<alive, outPipe, errPipe, errClosed, wrote, mpc, tpc, errBuf, result, spawnOK, ghostComplete, noiseFirst, pending>>
 
 ChildReportLine ==
   /\ alive /\ cpc = "report" /\ wrote.rep < Len(Report) /\ Len(errPipe) < Cap
-  /\ LET l == Report[wrote.rep + 1] IN
-       errPipe' = Append(errPipe, [k |-> l.k, id |-> l.id, full |-> TRUE, parses |-> l.k = "hdr"])
+  \* the report starts on a fresh line (fix; deviation "NoFreshLine" = before it:
+  \* the header glues itself to an unterminated line and is not recognised)
+  /\ LET l == Report[wrote.rep + 1]
+         glued == pending /\ "NoFreshLine" \in Deviations
+     IN errPipe' = Append(errPipe, [k |-> IF glued THEN "noise" ELSE l.k, id |-> l.id, full |-> TRUE,
+                                    parses |-> l.k = "hdr" /\ ~glued])
+  /\ pending' = FALSE
   /\ wrote' = [wrote EXCEPT !.rep = @ + 1]
   /\ ghostComplete' = (wrote.rep + 1 = Len(Report))      \* the whole report has been written
   /\ UNCHANGED <<cpc, alive, outPipe, outClosed, errClosed, mpc, tpc, errBuf, result, spawnOK, noiseFirst>>
 
 ChildExit == /\ alive /\ cpc = "report" /\ wrote.rep = Len(Report)
              /\ alive' = FALSE /\ cpc' = "exited" /\ outClosed' = TRUE /\ errClosed' = TRUE
-             /\ UNCHANGED <<outPipe, errPipe, wrote, mpc, tpc, errBuf, result, spawnOK, ghostComplete, noiseFirst>>
+             /\ UNCHANGED <<outPipe, errPipe, wrote, mpc, tpc, errBuf, result, spawnOK, ghostComplete, noiseFirst, pending>>
 
 (* the child dies (exit, signal) at any point; the line being written may be *)
 (* cut: the last stderr line loses its end, a cut header may stop parsing    *)
@@ -97,26 +105,26 @@ ChildDie(cut, stillParses) ==
                 ELSE errPipe
   \* a cut takes the end of the line being written: the report is not complete
   /\ ghostComplete' = (ghostComplete /\ ~(cut /\ Len(errPipe) > 0 /\ cpc = "report"))
-  /\ UNCHANGED <<outPipe, wrote, mpc, tpc, errBuf, result, spawnOK, noiseFirst>>
+  /\ UNCHANGED <<outPipe, wrote, mpc, tpc, errBuf, result, spawnOK, noiseFirst, pending>>
 
 (* ---- parent threads ------------------------------------------------------ *)
 MainReadOut == /\ mpc = "readout"
                /\ IF Len(outPipe) > 0 THEN /\ outPipe' = Tail(outPipe) /\ UNCHANGED mpc
                   ELSE /\ outClosed /\ mpc' = "join" /\ UNCHANGED outPipe
-               /\ UNCHANGED <<cpc, alive, errPipe, outClosed, errClosed, wrote, tpc, errBuf, result, spawnOK, ghostComplete, noiseFirst>>
+               /\ UNCHANGED <<cpc, alive, errPipe, outClosed, errClosed, wrote, tpc, errBuf, result, spawnOK, ghostComplete, noiseFirst, pending>>
 
 ThreadRead == /\ tpc = "reading" /\ "NoStderrThread" \notin Deviations
               /\ IF Len(errPipe) > 0
                  THEN /\ errBuf' = Append(errBuf, Head(errPipe)) /\ errPipe' = Tail(errPipe) /\ UNCHANGED tpc
                  ELSE /\ errClosed /\ tpc' = "eof" /\ UNCHANGED <<errBuf, errPipe>>
-              /\ UNCHANGED <<cpc, alive, outPipe, outClosed, errClosed, wrote, mpc, result, spawnOK, ghostComplete, noiseFirst>>
+              /\ UNCHANGED <<cpc, alive, outPipe, outClosed, errClosed, wrote, mpc, result, spawnOK, ghostComplete, noiseFirst, pending>>
 
 (* deviation: the main thread reads stderr itself, after stdout *)
 MainReadErr == /\ "NoStderrThread" \in Deviations /\ mpc = "join" /\ tpc = "reading"
                /\ IF Len(errPipe) > 0
                   THEN /\ errBuf' = Append(errBuf, Head(errPipe)) /\ errPipe' = Tail(errPipe) /\ UNCHANGED tpc
                   ELSE /\ errClosed /\ tpc' = "eof" /\ UNCHANGED <<errBuf, errPipe>>
-               /\ UNCHANGED <<cpc, alive, outPipe, outClosed, errClosed, wrote, mpc, result, spawnOK, ghostComplete, noiseFirst>>
+               /\ UNCHANGED <<cpc, alive, outPipe, outClosed, errClosed, wrote, mpc, result, spawnOK, ghostComplete, noiseFirst, pending>>
 
 Parse(buf) ==
   LET hs == {i \in 1..Len(buf) : buf[i].parses}
@@ -134,15 +142,15 @@ Parse(buf) ==
 
 MainJoinParse == /\ mpc = "join" /\ tpc = "eof"
                  /\ result' = Parse(errBuf) /\ mpc' = "reap"
-                 /\ UNCHANGED <<cpc, alive, outPipe, errPipe, outClosed, errClosed, wrote, tpc, errBuf, spawnOK, ghostComplete, noiseFirst>>
+                 /\ UNCHANGED <<cpc, alive, outPipe, errPipe, outClosed, errClosed, wrote, tpc, errBuf, spawnOK, ghostComplete, noiseFirst, pending>>
 
 MainReap == /\ mpc = "reap" /\ mpc' = "done"      \* finally: kill + communicate
             /\ alive' = FALSE /\ outClosed' = TRUE /\ errClosed' = TRUE
             /\ cpc' = IF alive THEN "dead" ELSE cpc
-            /\ UNCHANGED <<outPipe, errPipe, wrote, tpc, errBuf, result, spawnOK, ghostComplete, noiseFirst>>
+            /\ UNCHANGED <<outPipe, errPipe, wrote, tpc, errBuf, result, spawnOK, ghostComplete, noiseFirst, pending>>
 
 ChildStep == ChildOut \/ ChildCloseStdout \/ ChildReportLine \/ ChildExit
-             \/ \E look \in BOOLEAN : ChildNoise(look)
+             \/ \E look, term \in BOOLEAN : ChildNoise(look, term)
 Die == \E c, p \in BOOLEAN : ChildDie(c, p)
 ParentStep == Popen \/ MainReadOut \/ ThreadRead \/ MainReadErr \/ MainJoinParse \/ MainReap
 Next == ChildStep \/ Die \/ ParentStep
